@@ -15,7 +15,7 @@ RULE = ("one case = one field edit (add / replace / remove / select; from a scal
         "and the column holds at least one record")
 ASSUMPTIONS = ["replacing a field with keep_dtype=True is exercised with the same element type or a new field only (casts are Arrow's)"]
 CORRESPONDENCE = "m_set_flat_field / m_set_list_field / m_fill_field_lists / m_pop_fields / m_view_fields (ExtArray.v) vs the real methods"
-LAYOUTS = [l for l in gen.LAYOUTS if l != "missing_hidden"]
+LAYOUTS = [l for l in gen.LAYOUTS if l != "missing_hidden"] + ["history", "history"]
 
 
 def generate(ctx):
@@ -36,6 +36,9 @@ def generate(ctx):
         corner = {0: "zero_rows", 1: "all_missing", 2: "all_empty"}.get(i % 60)
         inp = ao.mk_input(rng, max_rows=max_rows, recipes=LAYOUTS, corner=corner,
                           recipe=LAYOUTS[i % len(LAYOUTS)] if i < 2 * len(LAYOUTS) else None)
+        if inp.get("history_failed"):
+            cases.append(ao.history_failure_case(inp))
+            continue
         if inp["built"][0] != "ok":
             continue
         cases.append(ops[i % len(ops)](rng, inp))
